@@ -44,7 +44,12 @@ _UN = C('Un', [P('a', None), P('b', None, ['int', 3])])
 _WD = C('WD', [P('n', 'int'), P('when', OPT('date'), ['none']), P('where', OPT('path'), ['none'])],
         savorize=[['word_to_int', 'n', [['seven', 7], ['x', 1]]], ['set_default', 'where', ['none']]])
 
+_YS = {'name': 'YS', 'kind': 'ystring'}
+_DK = C('DK', [P('m', ['dict', REF('US'), 'int']), P('y', OPT(['dict', REF('YS'), 'str']), ['none'])])
+_PR = C('PR', [P('a', 'int'), P('_id', 'int', ['int', 0])])
 MODELS = {
+    'DK': {'classes': [_US, _YS, _DK], 'doc_type': REF('DK')},
+    'PR': {'classes': [_PR], 'doc_type': REF('PR')},
     'V': {'classes': [_V], 'doc_type': REF('V')},
     'P': {'classes': [_P, _C1, _C2, _G], 'doc_type': REF('P')},
     'E': {'classes': [_E], 'doc_type': REF('E')},
@@ -73,6 +78,7 @@ KEYS = {
     'L': ['x', 'a', 'b'], 'DM': ['k', 'j'], 'DU': ['k', 'j'], 'AB': ['a', 'b'],
     'SH': ['center', 'radius', 'width', 'x'], 'UN': ['a', 'b', 'c'],
     'WD': ['n', 'when', 'where', 'zz'], 'BF': ['k'],
+    'DK': ['m', 'y', 'k'], 'PR': ['a', '_id', 'b'],
 }
 SCALS = ['1', 'x', 'true', '1.5', '~', 'red', '"1"']
 SCALS_BY = {'WD': ['1', 'seven', '2001-01-01', '~', 'a/b', '1.5'],
